@@ -142,6 +142,8 @@ def scenario_keys(ctx):
         add("verify", bp=bp, insp=["ok"])
         add("verify", bp=bp, insp=["fail"])
         add("verify", bp=bp, insp=["sleep"], timeout=tmo)
+    add("verify", bp="setting", insp=[])                       # a layout without inspections: nothing runs, nothing may change
+    add("verify", bp="setting", insp=[], dsse=True)
     add("verify", bp="setting", insp=["touch", "ok"])
     add("verify", bp="setting", insp=["ok", "fail127"])
     add("verify", bp="setting", insp=["ok", "sleep"], timeout=tmo)
@@ -160,9 +162,11 @@ def scenario_keys(ctx):
          lambda p: p["inspections"] >= 1 and "sublayout:honest" in p["tags"]),
         ({"rule_violation": True, "deviate": False, "vary_keys": False},
          lambda p: any(t in ("rule_violation", "insp_rule_violation") for t in p["tags"])),
+        ({"deviate": False, "vary_keys": False, "insp_counts": [0], "p_sub": 0.5},
+         lambda p: p["inspections"] == 0),
         ({}, lambda p: True),
     ]
-    for i in range(25 if th else 5):
+    for i in range(30 if th else 6):
         opts, want = slots[i % len(slots)]
         params = {"bp": "setting" if i % 3 != 2 else "none", "opts": opts}
         for _ in range(40):
